@@ -88,7 +88,7 @@ def run_cfg(ctx, fx):
         if not ops:
             # the table may be wrapped in a crate-local type whose methods perform the map operation: look one call down
             for cbi, ct in b.normal_calls():
-                h = fx.fn(ct.get("resolved") or ct.get("callee") or "")
+                h = fx.callee_fn(ct)
                 if h is not None and h["kind"] in ("fn", "assoc_fn") and not h.get("is_async"):
                     hops = [x for _, x in ctx.body(fx, h).normal_calls() if is_tabop(x)]
                     if hops:
@@ -172,7 +172,7 @@ def run_cfg(ctx, fx):
         n_sets = 0
         fam_bodies = [(co, b)]
         for _cbi, ct in b.normal_calls():
-            h = fx.fn(ct.get("resolved") or ct.get("callee") or "")
+            h = fx.callee_fn(ct)
             if h is not None and h["kind"] in ("fn", "assoc_fn") and not h.get("is_async") and (h.get("impl_self") or "").startswith("broker::"):
                 fam_bodies.append((h, ctx.body(fx, h)))
         for co_, b_ in fam_bodies:
@@ -216,11 +216,11 @@ def run_cfg(ctx, fx):
                 ctx.require(okp, "R09.5", "prune-keeps-live", "pruning must keep exactly the subscribers that can still be upgraded", fn=g["def"], site=t["l"])
     # R09.4 entry points
     entries = {
-        "broker::Broker::<T>::publish": ("broker::<impl addr::Addr<broker::Broker<T>>>::publish", None),
-        "broker::Broker::<T>::subscribe": ("broker::<impl addr::Addr<broker::Broker<T>>>::subscribe", None),
-        "broker::<impl addr::Addr<broker::Broker<T>>>::publish": ("addr::Addr::<A>::send", "broker::Publish"),
-        "broker::<impl addr::Addr<broker::Broker<T>>>::subscribe": ("addr::Addr::<A>::send", "broker::Subscribe"),
-        "broker::<impl addr::Addr<broker::Broker<T>>>::unsubscribe": ("addr::Addr::<A>::send", "broker::Unsubscribe"),
+        "broker::Broker::<T>::publish": ("addr::Addr::<broker::Broker<T>>::publish", None),
+        "broker::Broker::<T>::subscribe": ("addr::Addr::<broker::Broker<T>>::subscribe", None),
+        "addr::Addr::<broker::Broker<T>>::publish": ("addr::Addr::<A>::send", "broker::Publish"),
+        "addr::Addr::<broker::Broker<T>>::subscribe": ("addr::Addr::<A>::send", "broker::Subscribe"),
+        "addr::Addr::<broker::Broker<T>>::unsubscribe": ("addr::Addr::<A>::send", "broker::Unsubscribe"),
         "context::Context::<A>::publish": ("broker::Broker::<T>::publish", None),
         "context::Context::<A>::subscribe": ("broker::Broker::<T>::subscribe", None),
     }
